@@ -94,6 +94,16 @@ func New(part string) *Result {
 // Mine reports whether work item i belongs to this shard.
 func Mine(i int) bool { return F.NShards <= 1 || i%F.NShards == F.Shard }
 
+// MineKey assigns work items to shards by a hash of their key (avoids striding artefacts).
+func MineKey(key string) bool {
+	if F.NShards <= 1 {
+		return true
+	}
+	h := sha256.Sum256([]byte(key))
+	v := uint32(h[0])<<24 | uint32(h[1])<<16 | uint32(h[2])<<8 | uint32(h[3])
+	return int(v%uint32(F.NShards)) == F.Shard
+}
+
 // Eval counts one evaluated case.
 func (r *Result) Eval() { r.mu.Lock(); r.Evals++; r.mu.Unlock() }
 
